@@ -9,7 +9,7 @@ From TS Require Import Model.Lang.Common Model.Collect Model.MultiFile Spec.C09M
 From TS Require Spec.C14Spec Proofs.C14Main Proofs.C14Front Proofs.C14Witness Proofs.C09Multi Proofs.C09MultiWitness Proofs.C09MultiTS Proofs.C09MultiC14.
 From TS Require Import Spec.C09MultiLangSpec.
 From TS Require Spec.C14KotlinSpec Proofs.C12MultiStateless Proofs.C09MultiLang Proofs.C09MultiKotlin Proofs.C09MultiKotlinC14 Proofs.C09MultiLangWitness.
-From TS Require Proofs.C12MultiSwift Proofs.C12Multi Proofs.C09MultiSwift Proofs.C09MultiScala Proofs.C09MultiPython.
+From TS Require Proofs.C12MultiSwift Proofs.C12Multi Proofs.C12MultiGo Proofs.C09MultiSwift Proofs.C09MultiScala Proofs.C09MultiPython Proofs.C09MultiGo.
 Import ListNotations.
 From TS Require Props.C09.
 
@@ -536,3 +536,27 @@ Goal Proofs.C09MultiLangWitness.wl_dom Kotlin [] Proofs.C09MultiLangWitness.ws_a
   Proofs.C09MultiLangWitness.wl_dom Python [] Proofs.C09MultiLangWitness.ws_alias_renamed = Some (true, None).
 Proof. exact Props.C09.C09_multi_alias_classes. Qed.
 Print Assumptions Props.C09.C09_multi_alias_classes.
+Goal forall (uc : unicode) (cfg : go_config) (ho : list imported -> list imported) (arrivals : list (str * parsed)),
+    go_uppercase_acronyms cfg = [] ->
+    Proofs.C14Front.oracle_ok ho -> c9m_ids_wf arrivals = true ->
+    forall (b : str) (pd' : parsed), In (b, pd') (multi_crates ho arrivals) ->
+    forall (st : go_state) (text : str) (st' : go_state), go_generate_multi uc cfg st pd' = Ok (text, st') ->
+    exists (ds : list go_decl) (header : str) (st1 : go_state),
+      Proofs.C12MultiGo.go_multi_decls uc cfg st pd' = Ok (ds, st') /\ go_begin_file cfg st = Ok (header, st1) /\
+      text = (header ++ go_write_all_imports st' ++ List.concat (map go_render_decl ds))%list /\
+      Forall (fun d => (c09_is_def d = true -> c9m_ldef_ok Go arrivals b [] (d_name d)) /\
+                       (forall r, In r (c09_decl_refs Go d) -> c9m_lref_ok Go arrivals b [] r)) (flat_map go_obs ds) /\
+      good_C09_multi Go [] arrivals b (c9m_observe_decls Go (flat_map go_obs ds)) = true.
+Proof. exact Props.C09.C09_multi_Go_partial. Qed.
+Print Assumptions Props.C09.C09_multi_Go_partial.
+Goal forall (uc : unicode) (cfg : go_config), go_uppercase_acronyms cfg = [] ->
+  forall (pd' : parsed) (st : go_state) (ds : list go_decl) (st' : go_state),
+    Proofs.C12MultiGo.go_multi_decls uc cfg st pd' = Ok (ds, st') ->
+    forall o, In o (flat_map go_obs ds) -> Proofs.C09MultiLang.c9l_decl_ok Go [] pd' o.
+Proof. exact Props.C09.C09_multi_Go_shape_partial. Qed.
+Print Assumptions Props.C09.C09_multi_Go_shape_partial.
+Goal Proofs.C09MultiLangWitness.wl_dom Go [] Proofs.C09MultiLangWitness.ws_rich = Some (true, None) /\
+  Proofs.C09MultiLangWitness.wl_go Proofs.C09MultiLangWitness.ws_rich Proofs.C14Witness.MY (lit "A2Renamed") (lit "A2") = Some (5, 12, true, false)%nat /\
+  Proofs.C09MultiLangWitness.wl_go Proofs.C09MultiLangWitness.ws_rich Proofs.C14Witness.MY (lit "EVInner") (lit "EV") = Some (5, 12, true, false)%nat.
+Proof. exact Props.C09.C09_multi_Go_nonvacuous. Qed.
+Print Assumptions Props.C09.C09_multi_Go_nonvacuous.
